@@ -318,8 +318,311 @@ fn c03(tier: &str) -> PropDef {
     }
 }
 
+fn c04(tier: &str) -> PropDef {
+    let quick = tier == "quick";
+    let families = vec![
+        Family {
+            name: "seeded-alterations",
+            count: if quick { 3000 } else { 60_000 },
+            make: Box::new(|seed, idx| {
+                let mut r = Rng::stream(seed, "C04", idx, "tamper");
+                let mut g = G::new(idx);
+                let replicas = r.range(1, 2) as u8;
+                let n = r.range(4, 30) as usize;
+                let steps = gen::tamper_history(&mut r, &mut g, n, replicas, false);
+                let mut cfg = Cfg::basic(seed ^ idx);
+                cfg.replicas = replicas;
+                cfg.scan = ScanMode::None; // do_tamper scans after every offered alteration
+                world_case(cfg, steps, Fault::None)
+            }),
+        },
+        Family {
+            name: "full-alteration-set",
+            count: if quick { 150 } else { 12_000 },
+            make: Box::new(|seed, idx| {
+                let mut r = Rng::stream(seed, "C04", idx, "tamper-all");
+                let mut g = G::new(idx);
+                let n = r.range(3, 16) as usize;
+                let steps = gen::tamper_history(&mut r, &mut g, n, 1, true);
+                let mut cfg = Cfg::basic(seed ^ idx);
+                cfg.replicas = 1;
+                cfg.scan = ScanMode::None;
+                world_case(cfg, steps, Fault::None)
+            }),
+        },
+    ];
+    PropDef {
+        level: "exploration",
+        rule: "replica states reached by honest replication (as C03 strict arm); before an honest proof is delivered, altered variants of it are offered to the replica: (seeded) one random single-field alteration or forgery; (full) the whole systematic set for that proof: bit flips in value / every node hash / signature, +-1 (and +2) on fork, indices, sizes, start, length, seek bytes, node drop/duplicate/swap/insert per section, section removal, substituted block (same and different length), signature by another key over the true signable, the writer's signature for another length, signature length 0/63/65, and a whole self-consistent proof of the same shape from a different writer. Excluded as the property states: the size field of the bottom node of a hash-only or seek section. Oracle: refused => storage bytes and all observations unchanged; accepted => (length, byte_length) is a state the writer signed and every held block equals the writer's; the honest proof that follows is still accepted. distinct = trace hash; non-trivial = has a mutating step and a reopen.",
+        assumptions: vec!["Ed25519/BLAKE2b primitives are trusted", "numeric fields stay below 2^40"],
+        families,
+    }
+}
+
+fn c09(tier: &str) -> PropDef {
+    let quick = tier == "quick";
+    let families = vec![Family {
+        name: "byzantine",
+        count: if quick { 6000 } else { 400_000 },
+        make: Box::new(|seed, idx| {
+            let mut r = Rng::stream(seed, "C09", idx, "byz");
+            let mut g = G::new(idx);
+            let n = r.range(10, 50) as usize;
+            let steps = gen::byzantine_history(&mut r, &mut g, n);
+            let mut cfg = Cfg::basic(seed ^ idx);
+            cfg.replicas = 1;
+            cfg.scan = ScanMode::None;
+            world_case(cfg, steps, Fault::None)
+        }),
+    }];
+    PropDef {
+        level: "exploration",
+        rule: "cores that are empty, single-root, multi-root, with cleared blocks, writer and partially synced replica; a byzantine peer issues create_proof requests with each of block/hash/seek/upgrade absent or with fields from {0,1,2,len-1,len,len+1,2len-1,2len,2len+1,2^20,2^32,2^40-1} and node counts {0,1,2,3,64}, offers structurally arbitrary proofs (random node lists with true/random/zero/short hashes, zero-length upgrades, empty sections, valid/random/empty/short signatures) and the C04 alterations; every call runs under catch_unwind, a poll budget and a wall-clock watchdog. Oracle: the call returns Ok or Err; honest steps interleaved and at the end (append, honest sync, full scans of both nodes) still match the model. distinct = trace hash; non-trivial = every trace (all contain byzantine input); counted as traces with a mutating step.",
+        assumptions: vec!["numeric fields stay below 2^40", "a pure CPU loop is only visible to the wall-clock watchdog (120 s per call)"],
+        families,
+    }
+}
+
+fn c08(tier: &str) -> PropDef {
+    let quick = tier == "quick";
+    let families = vec![
+        Family {
+            name: "large-writer",
+            count: if quick { 10 } else { 300 },
+            make: Box::new(|seed, idx| {
+                let mut r = Rng::stream(seed, "C08", idx, "large");
+                let mut g = G::new(idx);
+                let steps = gen::large_history(&mut r, &mut g);
+                let mut cfg = Cfg::basic(seed ^ idx);
+                cfg.scan = ScanMode::Sampled;
+                world_case(cfg, steps, Fault::None)
+            }),
+        },
+        Family {
+            name: "far-apart-replica",
+            count: if quick { 6 } else { 150 },
+            make: Box::new(|seed, idx| {
+                let mut r = Rng::stream(seed, "C08", idx, "far");
+                let count = *r.pick(&[33000u32, 40000, 66000, 70000]);
+                let mut steps = vec![Step::Fill { n: 0, count, size: 1, tag0: 0 }];
+                let mut targets: Vec<u64> = vec![5, 8191, 8192, 32767, 32768, 40000, 65536, count as u64 - 1, 0, 1];
+                targets.retain(|t| *t < count as u64);
+                r.shuffle(&mut targets);
+                let mut first = true;
+                for t in targets {
+                    steps.push(Step::Sync { to: 1, req: crate::world::Req { block: Some(t), upgrade: if first { Some(u64::MAX >> 8) } else { None }, ..Default::default() } });
+                    first = false;
+                    if r.chance(1, 3) {
+                        steps.push(Step::Reopen { n: 1 });
+                    }
+                }
+                steps.push(Step::Reopen { n: 1 });
+                let mut cfg = Cfg::basic(seed ^ idx);
+                cfg.replicas = 1;
+                cfg.scan = ScanMode::Sampled;
+                world_case(cfg, steps, Fault::None)
+            }),
+        },
+        Family {
+            name: "small-writer",
+            count: if quick { 2500 } else { 80_000 },
+            make: Box::new(|seed, idx| {
+                let mut r = Rng::stream(seed, "C08", idx, "small");
+                let mut g = G::new(idx);
+                let (mix, _) = gen::pick_mix(&mut r);
+                let n = r.range(5, 50) as usize;
+                let steps = gen::writer_history(&mut r, &mut g, n, mix);
+                world_case(Cfg::basic(seed ^ idx), steps, Fault::None)
+            }),
+        },
+        Family {
+            name: "small-replica",
+            count: if quick { 2000 } else { 60_000 },
+            make: Box::new(|seed, idx| {
+                let mut r = Rng::stream(seed, "C08", idx, "replica");
+                let mut g = G::new(idx);
+                let n = r.range(4, 40) as usize;
+                let steps = gen::replica_history(&mut r, &mut g, n, 2);
+                let mut cfg = Cfg::basic(seed ^ idx);
+                cfg.replicas = 2;
+                world_case(cfg, steps, Fault::None)
+            }),
+        },
+        Family {
+            name: "crash-recovery",
+            count: if quick { 500 } else { 15_000 },
+            make: Box::new(|seed, idx| {
+                let mut r = Rng::stream(seed, "C08", idx, "crash");
+                let mut g = G::new(idx);
+                if idx % 3 == 0 {
+                    let n = history_len(&mut r);
+                    let steps = gen::replica_history(&mut r, &mut g, n, 1);
+                    let mut cfg = Cfg::basic(seed ^ idx);
+                    cfg.replicas = 1;
+                    world_case(cfg, steps, Fault::CrashAll { node: 1, tear: false, suffix_seed: 0, double: false, sample: 0 })
+                } else {
+                    let mix = gen::Mix { append: 4, batch: 2, clear: 6, read: 0, reopen: 4, mro: 0 };
+                    let n = history_len(&mut r);
+                    let steps = gen::writer_history(&mut r, &mut g, n, mix);
+                    world_case(Cfg::basic(seed ^ idx), steps, Fault::CrashAll { node: 0, tear: false, suffix_seed: 0, double: false, sample: 0 })
+                }
+            }),
+        },
+    ];
+    PropDef {
+        level: "exploration",
+        rule: "invariant judge after every mutating step and reopen: has(i) for all i < length plus boundary indices of the following pages equals the model's held set, and info().contiguous_length equals the model's first missing index. Families: large writers (batches of 8k-70k blocks, clears straddling 8192/32768/65536 and word edges, clear in the middle of the contiguous run followed by reopen before the next flush), replicas that upgrade to 33k-70k blocks and fetch blocks pages apart with reopens, small writer/replica histories, and crash recovery (every journal prefix; after recovery contiguous_length must equal the first missing index of the before-or-after model it recovered to). distinct = trace hash; non-trivial = mutating step and reopen (or a crash-point enumeration).",
+        assumptions: vec!["SimDisk implements the RandomAccess contract exactly as the stock backends do"],
+        families,
+    }
+}
+
+fn c12(tier: &str) -> PropDef {
+    let quick = tier == "quick";
+    let mk_hist = |prop_tag: &'static str| {
+        move |seed: u64, idx: u64| {
+            let mut r = Rng::stream(seed, "C12", idx, prop_tag);
+            let mut g = G::new(idx);
+            let mut steps = mro_history(&mut r, &mut g);
+            if r.chance(1, 3) {
+                let pos = r.below(steps.len() as u64 + 1) as usize;
+                steps.insert(pos, Step::BadOpen { n: 0 });
+            }
+            // after make_read_only: appends must be refused, data intact after reopen
+            let blk = g.blk(&mut r);
+            steps.push(Step::Append { n: 0, blk });
+            steps.push(Step::Reopen { n: 0 });
+            steps.push(Step::Append { n: 0, blk });
+            (r, steps)
+        }
+    };
+    let h1 = mk_hist("hist");
+    let h2 = mk_hist("crash");
+    let h3 = mk_hist("tear");
+    let families = vec![
+        Family {
+            name: "writer-histories",
+            count: if quick { 3000 } else { 100_000 },
+            make: Box::new(move |seed, idx| {
+                let (_r, steps) = h1(seed, idx);
+                world_case(Cfg::basic(seed ^ idx), steps, Fault::None)
+            }),
+        },
+        Family {
+            name: "replica-histories",
+            count: if quick { 1000 } else { 30_000 },
+            make: Box::new(|seed, idx| {
+                let mut r = Rng::stream(seed, "C12", idx, "replica");
+                let mut g = G::new(idx);
+                let n = r.range(2, 12) as usize;
+                let mut steps = gen::replica_history(&mut r, &mut g, n, 1);
+                let blk = g.blk(&mut r);
+                let pos = r.below(steps.len() as u64 + 1) as usize;
+                steps.insert(pos, Step::Append { n: 1, blk });
+                steps.push(Step::MakeReadOnly { n: 1 });
+                steps.push(Step::BadOpen { n: 1 });
+                steps.push(Step::Reopen { n: 1 });
+                steps.push(Step::Batch { n: 1, blks: vec![blk, blk] });
+                let mut cfg = Cfg::basic(seed ^ idx);
+                cfg.replicas = 1;
+                world_case(cfg, steps, Fault::None)
+            }),
+        },
+        Family {
+            name: "crash-in-make-read-only",
+            count: if quick { 400 } else { 12_000 },
+            make: Box::new(move |seed, idx| {
+                let (mut r, steps) = h2(seed, idx);
+                world_case(Cfg::basic(seed ^ idx), steps, Fault::CrashAll { node: 0, tear: false, suffix_seed: r.next(), double: false, sample: 0 })
+            }),
+        },
+        Family {
+            name: "torn-write-in-make-read-only",
+            count: if quick { 120 } else { 4_000 },
+            make: Box::new(move |seed, idx| {
+                let (mut r, steps) = h3(seed, idx);
+                world_case(Cfg::basic(seed ^ idx), steps, Fault::CrashAll { node: 0, tear: true, suffix_seed: r.next(), double: false, sample: 0 })
+            }),
+        },
+    ];
+    PropDef {
+        level: "fault_enumeration",
+        rule: "histories (as C01) ending in or interleaved with make_read_only, biased to reach it with 0-4 unflushed entries in the log under each header-slot phase, on writers and on replicas. Oracle: append on a core without secret key => Err(NotWritable), zero storage ops, zero events, state unchanged; after make_read_only returns true no storage file contains any 12-byte window of the 32-byte secret seed; reopen => writeable false, same public key, all data intact; second call => Ok(false); on a replica the first call => Ok(false); key_pair(..).open(true) => Err(BadArgument) with storage untouched; every reopen checks recovered key and writability. Crash part: EVERY journal prefix (and torn prefix of the next write) of those histories is reopened: a crash inside make_read_only must recover a writable or read-only core with the full before/after scan intact. distinct = trace hash; non-trivial = mutating step and (reopen or crash enumeration).",
+        assumptions: CRASH_ASSUME.to_vec(),
+        families,
+    }
+}
+
+fn c13(tier: &str) -> PropDef {
+    let quick = tier == "quick";
+    let families = vec![
+        Family {
+            name: "writer",
+            count: if quick { 2500 } else { 80_000 },
+            make: Box::new(|seed, idx| {
+                let mut r = Rng::stream(seed, "C13", idx, "writer");
+                let mut g = G::new(idx);
+                let (mix, _) = gen::pick_mix(&mut r);
+                let n = r.range(5, 50) as usize;
+                let steps = gen::writer_history(&mut r, &mut g, n, mix);
+                let mut cfg = Cfg::basic(seed ^ idx);
+                cfg.subscribers = r.range(1, 3) as u8;
+                cfg.scan = ScanMode::None;
+                world_case(cfg, steps, Fault::None)
+            }),
+        },
+        Family {
+            name: "replication-with-refusals",
+            count: if quick { 2500 } else { 80_000 },
+            make: Box::new(|seed, idx| {
+                let mut r = Rng::stream(seed, "C13", idx, "repl");
+                let mut g = G::new(idx);
+                let replicas = r.range(1, 2) as u8;
+                let n = r.range(4, 30) as usize;
+                let steps = gen::tamper_history(&mut r, &mut g, n, replicas, false);
+                let mut cfg = Cfg::basic(seed ^ idx);
+                cfg.replicas = replicas;
+                cfg.subscribers = r.range(1, 3) as u8;
+                cfg.scan = ScanMode::None;
+                world_case(cfg, steps, Fault::None)
+            }),
+        },
+        Family {
+            name: "failing-calls",
+            count: if quick { 150 } else { 5_000 },
+            make: Box::new(|seed, idx| {
+                let mut r = Rng::stream(seed, "C13", idx, "fail");
+                let mut g = G::new(idx);
+                let n = history_len(&mut r);
+                let mut cfg = Cfg::basic(seed ^ idx);
+                cfg.subscribers = 2;
+                if idx % 2 == 0 {
+                    let (mix, _) = gen::pick_mix(&mut r);
+                    let steps = gen::writer_history(&mut r, &mut g, n, mix);
+                    world_case(cfg, steps, Fault::FailAll { node: 0, suffix_seed: 0 })
+                } else {
+                    cfg.replicas = 1;
+                    let steps = gen::replica_history(&mut r, &mut g, n, 1);
+                    world_case(cfg, steps, Fault::FailAll { node: 1, suffix_seed: 0 })
+                }
+            }),
+        },
+    ];
+    PropDef {
+        level: "exploration",
+        rule: "1-3 subscribers attached after each open; after each call every receiver is drained and compared with the expectation derived from the model: non-empty append => [DataUpgrade, Have{old_len, n, false}]; accepted proof => [DataUpgrade] iff it carried an upgrade, then [Have{index,1,false}] iff it carried a block; get of a block not held (missing, cleared, out of range) => [Get{index}]; empty batch, clear, has, info, refused proofs (C04 alterations) and failing calls (one injected I/O error at every storage op of the history) => []. All subscribers must see the same sequence; at the end of a fault-free run the union of announced ranges must equal the set of indices that became available. distinct = trace hash; non-trivial = mutating step and reopen.",
+        assumptions: vec!["fewer than 32 undrained events (receivers are drained after every call)", "create_proof is outside the property's history set: the Get it emits for a cleared block is tolerated"],
+        families,
+    }
+}
+
 pub fn prop_def(prop: &str, tier: &str) -> Option<PropDef> {
     match prop {
+        "C04" => Some(c04(tier)),
+        "C08" => Some(c08(tier)),
+        "C09" => Some(c09(tier)),
+        "C12" => Some(c12(tier)),
+        "C13" => Some(c13(tier)),
         "C03" => Some(c03(tier)),
         "C01" => Some(c01(tier)),
         "C02" => Some(c02(tier)),
